@@ -321,6 +321,66 @@ def rule_r3(chk, p, t):
         r.guard(c23.qualname, three)
 
 
+def rule_r4(chk, p, t):
+    r = chk.rule(
+        "C03.R4",
+        "per-event bookkeeping of the restart loops",
+        2,
+        "solve_ivp reports events per event function: `t_events` / `y_events` are lists with one array per event, of "
+        "different lengths as soon as only some of several events fired. In both restart loops (propagate, "
+        "propagateBulk) these lists are only handed on whole to _applyEvents, iterated, or indexed by a loop variable; "
+        "stacking them into one array (array / asarray / numpy max / min / concatenate of the whole list) raises for a "
+        "ragged list, and a constant index takes the state of the first event instead of the one that stopped the "
+        "integration - so a batched call with two scheduled events fails or restarts from the wrong state where the "
+        "same propagation in separate calls succeeds",
+        "the values the integrator reports",
+    )
+    from rsa.util import parents_map
+
+    cel = p.cls(CEL)
+    STACKERS = {"array", "asarray", "np_max", "amax", "max", "np_min", "amin", "min", "concatenate", "hstack", "vstack", "stack", "sum", "np_sum"}
+    n_uses = 0
+    for nm in ("propagate", "propagateBulk"):
+        m = cel.methods.get(nm)
+
+        def one(m=m, nm=nm):
+            nonlocal n_uses
+            pm = parents_map(m.node)
+            bad = []
+            good = 0
+            for n in walk_no_nested(m.node):
+                if not (isinstance(n, ast.Attribute) and n.attr in ("t_events", "y_events") and isinstance(n.ctx, ast.Load)):
+                    continue
+                n_uses += 1
+                par = pm.get(n)
+                # `sol.t_events or ()`
+                if isinstance(par, ast.BoolOp) and isinstance(par.op, ast.Or):
+                    par = pm.get(par)
+                if isinstance(par, ast.Subscript) and par.value in (n, pm.get(n)):
+                    idx = par.slice
+                    if isinstance(idx, ast.Constant):
+                        bad.append(f"`{unparse(par)}`: the entry of event {idx.value} whatever event stopped the integration (empty when another one fired)")
+                    else:
+                        good += 1
+                    continue
+                if isinstance(par, ast.Call) and call_name(par) in STACKERS and any(a is n or (isinstance(a, ast.BoolOp) and n in a.values) for a in par.args):
+                    bad.append(f"`{unparse(par)[:50]}`: the per-event list is stacked into one array - fails when the events reported different numbers of times")
+                    continue
+                if isinstance(par, ast.Attribute) and par.attr in ("size", "shape"):
+                    bad.append(f"`{unparse(par)}`: size of the per-event list, not of an event's reported times")
+                    continue
+                good += 1
+            cons = f"{CEL}.{nm}:event-lists"
+            if bad:
+                r.violation(cons, "ragged-event-lists:" + ";".join(sorted(set(b[:50] for b in bad))), f"{nm} treats solve_ivp's per-event lists as one array: " + "; ".join(sorted(set(bad))) + " - with two or more events of which one fires the call raises (or restarts from an empty / foreign state) although separate propagate calls over the same span succeed", m.loc())
+            else:
+                r.ok(cons, f"{good} uses of t_events / y_events, all per event", m.loc())
+
+        r.guard(f"{CEL}.{nm}:event-lists", one)
+    if n_uses < 2:
+        r.error("event-lists", f"{n_uses} uses of t_events / y_events found in the restart loops (2 confirmed by hand)")
+
+
 def run(chk, p, t):
     chk.explanation = (
         "Static decision of a deliberately narrow set of structural necessary conditions of C03: (R1) the strided "
@@ -331,7 +391,7 @@ def run(chk, p, t):
         "tolerance, Kepler exactness, energy / momentum conservation (integrator numerics)."
     )
     chk.assumptions += ["numpy ravel / reshape are row-major: element (i, k) of a (6, K) array is at index i K + k"]
-    for fn in (rule_r1, rule_r2, rule_r3):
+    for fn in (rule_r1, rule_r2, rule_r3, rule_r4):
         rid = "C03.R" + fn.__name__[-1]
         if not chk.wants(rid):
             continue
